@@ -434,3 +434,54 @@ Proof.
   - split; [reflexivity|]. apply prog_transpose_related. exact E.
   - apply prog_transpose_error in E. exact E.
 Qed.
+
+(** * Extensions *)
+
+(* squash centres the melody: before folding, the transposed melody's centre is within half an
+   octave of the target centre (centres doubled: 2 * 6 semitones = 12) *)
+Theorem squash_centered lo hi to_key evs x rest :
+  filter (fun e => (MIN_MIDI_PITCH <=? e) && (e <=? MAX_MIDI_PITCH)) evs = x :: rest ->
+  let amount := fst (mel_squash lo hi (Some to_key) evs) in
+  let melody_center2 := zmin_list x rest + zmax_list x rest in
+  Z.abs ((lo + hi - 1) - (melody_center2 + 2 * amount)) <= 12.
+Proof.
+  intros Hf. unfold mel_squash. rewrite Hf. cbn [fst]. unfold NOTES_PER_OCTAVE.
+  set (kd := to_key - major_key evs).
+  set (cd2 := lo + hi - 1 - (zmin_list x rest + zmax_list x rest + 2 * kd)).
+  pose proof (round_half_even_spec cd2 24 ltac:(lia)) as H. cbn zeta in H.
+  change (2 * 12) with 24. lia.
+Qed.
+
+(* C11: a well-formed sequence stays well-formed *)
+Lemma Forall_filter {A} (P : A -> Prop) f l : Forall P l -> Forall P (filter f l).
+Proof.
+  intros H. apply Forall_forall. intros x Hx. apply filter_In in Hx.
+  rewrite Forall_forall in H. apply H. tauto.
+Qed.
+
+Lemma Forall2_Forall_r {A B} (R : A -> B -> Prop) (P : A -> Prop) (Q : B -> Prop) l l' :
+  (forall x y, R x y -> P x -> Q y) -> Forall2 R l l' -> Forall P l -> Forall Q l'.
+Proof.
+  intros H F. induction F; intros Hl; constructor; inversion Hl; subst; eauto.
+Qed.
+
+Theorem transpose_ns_wf s k lo hi tc r deleted :
+  seq_wf s -> transpose_ns s k lo hi tc = Some (r, deleted) -> seq_wf r.
+Proof.
+  intros (Wn & Wt & Wts & Wk & Wx & Wc & Wb & Ws) H.
+  destruct (transpose_ns_ok _ _ _ _ _ _ _ H)
+    as (Hn & _ & _ & _ & Hk & Hte & Hts & Hc & Hb & Hs & _ & _ & _ & _ & _ & _ & Htot & Hcov & Htx).
+  unfold seq_wf. rewrite Hte, Hts, Hc, Hb, Hs, Hk. repeat split; try assumption.
+  - apply Forall_forall. intros n Hin. pose proof (Hcov n Hin) as Hend.
+    rewrite Hn in Hin. apply in_map_iff in Hin. destruct Hin as (m & <- & Hm). apply filter_In in Hm.
+    rewrite Forall_forall in Wn. destruct (Wn m (proj1 Hm)) as (W1 & W2 & _).
+    destruct (note_shift_times k m) as (E1 & E2 & _).
+    unfold note_wf. rewrite E1, E2 in *. repeat split; assumption.
+  - apply Forall_forall. intros x Hx. apply in_map_iff in Hx. destruct Hx as (y & <- & Hy).
+    rewrite Forall_forall in Wk. cbn. apply Wk. exact Hy.
+  - destruct tc.
+    + pose proof (map_opt_Forall2 _ _ (text_transposed_related k) _ _ Htx) as F2.
+      revert Wx. apply (Forall2_Forall_r _ _ _ _ _ (fun x y (R : text_related k x y) (P : 0 <= tx_time x) =>
+        eq_ind_r (fun t => 0 <= t) P (proj1 R)) F2).
+    + rewrite Htx. apply Forall_filter. exact Wx.
+Qed.
